@@ -43,6 +43,23 @@ impl Setting {
             s.bindings.insert(format!("bound{}x{}", i, self.salt), ItemSpec::Int(i as i32));
         }
         s.config.new_erc_name_probability = self.pnew;
+        // the generator's size and leaf clauses hold for every configuration: a third of the work
+        // items run with an empty, a third with a reversed INTEGER / FLOAT random range
+        match self.salt % 3 {
+            1 => {
+                s.config.min_random_integer = 5;
+                s.config.max_random_integer = 5;
+                s.config.min_random_float = 0.5;
+                s.config.max_random_float = 0.5;
+            }
+            2 => {
+                s.config.min_random_integer = 10;
+                s.config.max_random_integer = -10;
+                s.config.min_random_float = 2.0;
+                s.config.max_random_float = -2.0;
+            }
+            _ => {}
+        }
         s
     }
     fn to_json(&self) -> Value {
